@@ -1012,6 +1012,50 @@ func (e *emitter) c03Ctor(s *source, rel string) {
 	pairs("alignAssigns", closure)
 }
 
+// round 5e: where a field of the limiter is written.  Every function of the file that assigns `<x>.field` or sets
+// `field:` in a composite literal, as "<function>:<assign|literal>", in source order.
+func (e *emitter) c03FieldWrites(s *source, rel, field, lean string) {
+	var out []string
+	f := s.file(rel)
+	if f == nil {
+		e.errors = append(e.errors, "cannot parse "+rel)
+		out = []string{"MISSING"}
+	} else {
+		for _, d := range f.Decls {
+			fd, ok := d.(*ast.FuncDecl)
+			if !ok || fd.Body == nil {
+				continue
+			}
+			name := fd.Name.Name
+			if r := recvTypeName(fd); r != "" {
+				name = r + "." + name
+			}
+			ast.Inspect(fd.Body, func(n ast.Node) bool {
+				switch x := n.(type) {
+				case *ast.AssignStmt:
+					for _, l := range x.Lhs {
+						if sel, ok := l.(*ast.SelectorExpr); ok && sel.Sel.Name == field {
+							out = append(out, name+":assign")
+						}
+					}
+				case *ast.KeyValueExpr:
+					if id, ok := x.Key.(*ast.Ident); ok && id.Name == field {
+						out = append(out, name+":literal")
+					}
+				case *ast.UnaryExpr:
+					if x.Op == token.AND {
+						if sel, ok := x.X.(*ast.SelectorExpr); ok && sel.Sel.Name == field {
+							out = append(out, name+":address-taken")
+						}
+					}
+				}
+				return true
+			})
+		}
+	}
+	e.stringList(lean, "every place in "+rel+" that writes the field `"+field+"` (function:kind)", out)
+}
+
 func init() {
 	register("C03", func(s *source, e *emitter) {
 		const pf = "core/limit/periodlimit.go"
@@ -1132,5 +1176,10 @@ func init() {
 		e.c03SwitchConsts(s, rf, "getRedis", "getRedisAccepted", "getRedisDefaultIsError")
 		e.c03OrErrs(s, rf, "acceptable", "acceptableErrs")
 		e.c03Ctor(s, pf)
+
+		// round 5e
+		e.c03FieldWrites(s, tf, "rescueLimiter", "rescueLimiterWrites")
+		e.c03FieldWrites(s, tf, "burst", "burstWrites")
+		e.c03FieldWrites(s, tf, "rate", "rateWrites")
 	})
 }
